@@ -1,3 +1,50 @@
 (** C11 — list views of a field read the exact values and write back only what changed.
-    (statements are being added; see Repro/ListProofs.v) *)
-From Verif Require Import Lib.Base Lib.PyStr Gen.PyChars Repro.ListView Repro.ListSpec.
+    Only statements; every proof is [exact <lemma>] or a short composition.
+
+    Model: Repro/ListView.v; spec: Repro/ListSpec.v; proofs: Repro/ListProofs.v (+ ListLemmas.v). *)
+From Coq Require Import String.
+From Verif Require Import Lib.Base Lib.Dec Lib.PyStr Gen.PyChars
+  Repro.ListView Repro.ListSpec Repro.ListLemmas Repro.ListProofs.
+
+Definition is_comma (k : lkind) : bool := match k with Comma => true | Space => false end.
+
+(** 1. view_reads_split.  For every value text of the property's domain ([value_ok]: only LF
+       line boundaries, some content, every line after the first starts with SP / TAB / '#'
+       and is not blank) and for both interpretations, opening the view succeeds and
+       list(view) is exactly the reference split of the text: comment lines dropped, the
+       WHOLE remaining text split on the separator, pieces trimmed, empty pieces dropped.
+       No bound on the number of lines, values, separators or comments. *)
+Theorem C11_view_reads_split :
+  forall k v, value_ok v = true ->
+  exists vw, interpret k v = Ok vw /\ view_values vw = split_spec (is_comma k) v.
+Proof.
+  intros [|] v H; [exact (view_reads_split_space v H)|exact (view_reads_split_comma v H)].
+Qed.
+
+(** 2. view_noop_identity.  Opening a view, reading through it (iteration, snapshots of
+       value references, reference reads) and closing it writes nothing: no exception at
+       close, the field's value text - hence the document - is byte-identical.  Holds for
+       EVERY value text (also outside the domain, also when opening fails). *)
+Theorem C11_view_noop_identity :
+  forall k name value os pre post,
+    forallb read_only os = true ->
+    let r := run_session k name value os in
+    sr_close r = None
+    /\ doc_of pre name (sr_value r) post = doc_of pre name value post.
+Proof.
+  intros k name value os pre post H r. subst r.
+  destruct (view_noop_identity k name value os H) as [H1 H2]. now rewrite H2.
+Qed.
+
+Local Open Scope string_scope.
+Example C11_nonvacuous_read :
+  let v := dec " a,\00000a b c\00000a# note, x\00000a\000009d ,, e,\00000a" in
+  value_ok v = true
+  /\ split_spec true v = [dec "a"; (dec "b c" ++ [LF; TAB] ++ dec "d")%list; dec "e"]
+  /\ split_spec false v = [dec "a,"; dec "b"; dec "c"; dec "d"; dec ",,"; dec "e,"]
+  /\ (exists vw, interpret Comma v = Ok vw /\ view_values vw = split_spec true v)
+  /\ forallb read_only [OSnap; ORefGet 1; ORefGet 7] = true.
+Proof. vm_compute. repeat split. eexists. split; reflexivity. Qed.
+
+Print Assumptions C11_view_reads_split.
+Print Assumptions C11_view_noop_identity.
